@@ -42,6 +42,9 @@ def parseCtlOp (ws : List String) : Option CtlOp :=
     do some (.start a (b01 cok) (← size.toNat?) (b01 swo) clone (b01 srw) (if rev = "-" then none else rev.toNat?) (parseCk ch sf))
   | ["add", a, "|", tk, cok, sfails, nsok, swo, ch, sf] =>
     some (.add a (if tk = "-" then none else some (b01 tk)) (b01 cok) (splitList sfails) (b01 nsok) (b01 swo) (parseCk ch sf))
+  | ["addpre", a, "|", tk] => some (.addPre a (if tk = "-" then none else some (b01 tk)))
+  | ["addpost", a, "|", tk, cok, sfails, nsok, swo, ch, sf] =>
+    some (.addPost a (if tk = "-" then none else some (b01 tk)) (b01 cok) (splitList sfails) (b01 nsok) (b01 swo) (parseCk ch sf))
   | ["rm", a] => some (.remove a)
   | ["setmode", a, m] => do some (.setMode a (← parseCMode m))
   | ["verify", a, "|", rwc, woc, ck, rev, srw, srev, ch, sf] =>
